@@ -327,3 +327,54 @@ def run(repo: Repo, chk: Check) -> None:
                        {'outcome': outcome(res)},
                        what=f'parameter {name}: ContractEntrypoint({ep}).encode then decode loses or changes the value at {d}: {outcome(res)}')
     chk.minimum('entrypoint compositions', ne, 30)
+
+    # ---- 5 big_map identifiers: a big_map that lives on chain is the integer identifier in the Python object and in the Micheline value, for
+    #        EVERY identifier (0 is one); the literal form is only chosen when there is no identifier.  ContractData.decode/encode pass lazy_diff=None.
+    chk.set_clause('C12.5')
+    BM = 'pytezos.michelson.types.big_map.BigMapType'
+    from ..absint import Hooks
+
+    class IdHooks(Hooks):
+        def inline(self, it, fi):
+            return fi.cls is not None and fi.cls.qualname == BM and fi.name in ('to_python_object', 'to_micheline_value', 'from_python_object')
+
+        def truth(self, it, term):
+            # an identifier is an int >= 0: never None, but its truthiness is unknown (0 is falsy)
+            if isinstance(term, App) and term.op == 'is' and len(term.args) == 2 and term.args[1] is None and isinstance(term.args[0], Sym) and term.args[0].name == 'ptr':
+                return False
+            return None
+
+        def isinstance(self, it, obj, classes):
+            from ..absint import Builtin
+            if isinstance(obj, Sym) and obj.name == 'ptr':
+                return any(isinstance(c, Builtin) and c.name == 'int' for c in classes)
+            return NotImplemented
+
+        def call(self, it, callee, args, kwargs, node):
+            if isinstance(callee, ClassRef) and repo.is_subclass(callee.qual, BM):
+                names = ['items', 'ptr', 'removed_keys']
+                f = dict(zip(names, args))
+                f.update(kwargs)
+                return Obj(BM, {'items': f.get('items'), 'ptr': f.get('ptr'), 'removed_keys': f.get('removed_keys')})
+            return NotImplemented
+
+    nb = 0
+    for meth, kw, want in (('to_python_object', {'lazy_diff': None}, lambda v: vrepr(v) == '$ptr'),
+                           ('to_micheline_value', {'lazy_diff': None}, lambda v: isinstance(v, dict) and set(v) == {'int'} and '$ptr' in vrepr(v['int']))):
+        fi = repo.find_method(BM, meth)
+        it = Interp(repo, IdHooks(), max_depth=2)
+        res = it.run_paths(lambda i, fi=fi, kw=kw: i.call_function(
+            FuncRef(fi, Obj(BM, {'items': [], 'ptr': Sym('ptr', 'int'), 'removed_keys': [], 'context': None}), True), [], dict(kw), None, force_inline=True))
+        bad = [(p.outcome, vrepr(p.value)[:80], p.cond_repr()[:60]) for p in res if not (p.outcome == 'return' and want(p.value))]
+        nb += 1
+        chk.ob('R-GUARD', fi.qualname, bool(res) and not bad, f'{meth}(lazy_diff=None) of an on-chain big_map is its identifier for every identifier (0 included)', fi.loc,
+               {'paths': len(res), 'other_outcomes': bad[:3]},
+               what=f'BigMapType.{meth}: for some identifier (the falsy identifier 0) the big_map is rendered as {bad[:1]} instead of the identifier: '
+                    'ContractData.decode/encode turn big_map 0 into a new empty big_map')
+    fpo = repo.find_method(BM, 'from_python_object')
+    res = Interp(repo, IdHooks(), max_depth=2).run_paths(lambda i: i.call_function(FuncRef(fpo, ClassRef(BM), True), [Sym('ptr', 'int')], {}, None, force_inline=True))
+    bad = [(p.outcome, vrepr(p.value)[:80]) for p in res if not (p.outcome == 'return' and isinstance(p.value, Obj) and vrepr(p.value.fields.get('ptr')) == '$ptr')]
+    nb += 1
+    chk.ob('R-GUARD', fpo.qualname, bool(res) and not bad, 'from_python_object of an integer is the big_map with that identifier, for every identifier', fpo.loc,
+           {'other_outcomes': bad[:3]}, what=f'BigMapType.from_python_object: an integer identifier does not come back as that identifier: {bad[:1]}')
+    chk.minimum('big_map identifier conversions', nb, 3)
